@@ -214,8 +214,26 @@ func flight4Parse(
 	}
 	state.HandshakeRecvSequence = finishedPull.NextSequence
 
-	if _, ok = finishedPull.Messages[handshake.TypeFinished].(*handshake.MessageFinished); !ok {
+	finished, ok := finishedPull.Messages[handshake.TypeFinished].(*handshake.MessageFinished)
+	if !ok {
 		return 0, &alert.Alert{Level: alert.Fatal, Description: alert.InternalError}, nil
+	}
+
+	// The client's Finished must match the server's own view of the transcript
+	// (RFC 5246 Section 7.4.9). Decrypting it only proves the keys agree, which
+	// without extended master secret they do even if a hello was rewritten.
+	plainText := cache.PullAndMerge(append(
+		handshakeRulesThroughClientKeyExchange(cfg.InitialEpoch),
+		dtlsflight.HandshakeCachePullRule{
+			Typ: handshake.TypeCertificateVerify, Epoch: cfg.InitialEpoch, IsClient: true, Optional: false,
+		},
+	)...)
+	expectedVerifyData, err := prf.VerifyDataClient(state.MasterSecret, plainText, state.CipherSuite.HashFunc())
+	if err != nil {
+		return 0, &alert.Alert{Level: alert.Fatal, Description: alert.InternalError}, err
+	}
+	if !bytes.Equal(expectedVerifyData, finished.VerifyData) {
+		return 0, &alert.Alert{Level: alert.Fatal, Description: alert.HandshakeFailure}, dtlserrors.ErrVerifyDataMismatch
 	}
 
 	if state.CipherSuite.AuthenticationType() == ciphersuite.AuthenticationTypeAnonymous {
